@@ -104,7 +104,7 @@ void *trie_get(const TrieTree *self, const GoString *key)
             i = l;
         }
         uint8_t j = ascii2int(key->buf[i]);
-        if (j > fs.len)
+        if (j >= fs.len)
         {
             return NULL;
         }
